@@ -6,9 +6,10 @@ g=collections.Counter(); ex={}
 for p in glob.glob(f'/verif/evidence/replay/{prop}-{tier}-*.json'):
     d=json.load(open(p))
     kind=d.get('complaint') or (str(d.get('expected'))+'->'+str(d.get('observed')))
-    vk=(d.get('value') or {}).get('k')
-    key=(kind,vk)
+    val=d.get('value') or (d.get('document') or {}).get('v')
+    vk=(val or {}).get('k') if isinstance(val,dict) else None
+    key=(kind,vk,d.get('printing'))
     g[key]+=1
-    ex.setdefault(key,(p,' ;; '.join(d['program'].strip().splitlines()[:-1]),json.dumps(d.get('value'))[:120], (d.get('call') or {}).get('pthrown','')[:150] if d.get('call') else ''))
+    ex.setdefault(key,(p,' ;; '.join(d['program'].strip().splitlines()[:-1]),json.dumps(val)[:120], (d.get('call') or {}).get('pthrown','')[:150] if d.get('call') else ''))
 for k,c in sorted(g.items(),key=lambda x:-x[1]):
     print(c,k,ex[k][1:], ex[k][0].split('/')[-1])
